@@ -659,3 +659,12 @@ Proof.
     rewrite starts_before_ge by lia. lia.
   - destruct (N.ltb_spec idx i); [|lia]. rewrite IH. lia.
 Qed.
+
+(** the character span of a byte span whose ends are character boundaries counts exactly the
+    characters before it and the characters in it *)
+Theorem char_span_exact pre mid suf :
+  char_span (pre ++ mid ++ suf) (len8s pre) (len8s (pre ++ mid)) = (N.of_nat (length pre), N.of_nat (length pre + length mid)).
+Proof.
+  unfold char_span. rewrite char_index_boundary. f_equal.
+  rewrite app_assoc, char_index_boundary, app_length. reflexivity.
+Qed.
